@@ -466,14 +466,178 @@ pub proof fn lemma_pairs_tile(orig: Seq<Token>, cur: Seq<Token>, ind: Seq<usize>
 
 '''
 
+CI_LEMMAS = r'''
+// ---- trusted std: Option<&T>::copied copies the referent ----
+pub assume_specification<'a, T: Copy> [std::option::Option::<&T>::copied] (o: std::option::Option<&'a T>) -> (r: std::option::Option<T>)
+    ensures r == (match o { Some(x) => Some(*x), None => None });
+
+pub open spec fn ci_pre(ind: Seq<usize>, st: int, len: int) -> bool {
+    &&& st >= 1
+    &&& forall|k: int| 0 <= k < ind.len() ==> #[trigger] ind[k] + st <= len
+    &&& forall|a: int, b: int| 0 <= a < b < ind.len() ==> #[trigger] ind[a] + st <= #[trigger] ind[b]
+}
+pub open spec fn pfun(ind: Seq<usize>, st: int) -> spec_fn(int) -> bool { |i: int| in_stretch(ind, st, i) }
+pub proof fn lemma_keepf_ext<T>(s: Seq<T>, p: spec_fn(int) -> bool, q: spec_fn(int) -> bool, f: int)
+    requires forall|i: int| 0 <= i < f ==> #[trigger] p(i) == q(i),
+    ensures keepf(s, p, f) == keepf(s, q, f),
+    decreases f
+{
+    if f > 0 { lemma_keepf_ext(s, p, q, f - 1); assert(p(f - 1) == q(f - 1)); }
+}
+pub proof fn lemma_keepf_append<T>(s: Seq<T>, p: spec_fn(int) -> bool, a: int, b: int)
+    requires 0 <= a <= b <= s.len(), forall|i: int| a <= i < b ==> !(#[trigger] p(i)),
+    ensures keepf(s, p, b) == keepf(s, p, a) + s.subrange(a, b),
+    decreases b - a
+{
+    if a < b {
+        lemma_keepf_append(s, p, a, b - 1);
+        assert(!p(b - 1));
+        assert(keepf(s, p, a) + s.subrange(a, b) =~= (keepf(s, p, a) + s.subrange(a, b - 1)).push(s[b - 1]));
+    } else { assert(keepf(s, p, a) + s.subrange(a, b) =~= keepf(s, p, a)); }
+}
+pub proof fn lemma_keepf_skip<T>(s: Seq<T>, p: spec_fn(int) -> bool, a: int, b: int)
+    requires 0 <= a <= b, forall|i: int| a <= i < b ==> #[trigger] p(i),
+    ensures keepf(s, p, b) == keepf(s, p, a),
+    decreases b - a
+{
+    if a < b { lemma_keepf_skip(s, p, a, b - 1); assert(p(b - 1)); }
+}
+pub proof fn lemma_ind_mono(ind: Seq<usize>, st: int, len: int, a: int, b: int)
+    requires ci_pre(ind, st, len), 0 <= a <= b < ind.len(),
+    ensures ind[a] <= ind[b], a < b ==> ind[a] + st <= ind[b],
+{ }
+// positions outside every stretch: up to the first index; between a stretch and the next index; behind the last stretch
+pub proof fn lemma_not_in_stretch(ind: Seq<usize>, st: int, len: int, k: int, i: int)
+    requires ci_pre(ind, st, len),
+        (k == -1 && (ind.len() == 0 || i <= ind[0])) || (0 <= k < ind.len() && ind[k] + st <= i && (k + 1 < ind.len() ==> i <= ind[k + 1])) || (0 <= k < ind.len() && i == ind[k]),
+    ensures !in_stretch(ind, st, i),
+{
+    if in_stretch(ind, st, i) {
+        let j = choose|j: int| 0 <= j < ind.len() && #[trigger] ind[j] < i && i < ind[j] + st;
+        if k == -1 { lemma_ind_mono(ind, st, len, 0, j); }
+        else if j <= k { lemma_ind_mono(ind, st, len, j, k); }
+        else { lemma_ind_mono(ind, st, len, k + 1, j); }
+    }
+}
+pub proof fn lemma_in_rm_unique(ind: Seq<usize>, st: int, len: int, k: int)
+    requires ci_pre(ind, st, len), 0 <= k < ind.len(),
+    ensures in_rm(ind, ind[k] as int), forall|j: int| 0 <= j < ind.len() && j != k ==> ind[j] != ind[k],
+            st > 1 ==> !in_rm(ind, ind[k] + st - 1),
+{
+    assert forall|j: int| 0 <= j < ind.len() && j != k implies ind[j] != ind[k] by {
+        if j < k { lemma_ind_mono(ind, st, len, j, k); } else { lemma_ind_mono(ind, st, len, k, j); }
+    }
+    if st > 1 && in_rm(ind, ind[k] + st - 1) {
+        let j = choose|j: int| 0 <= j < ind.len() && #[trigger] ind[j] as int == ind[k] + st - 1;
+        if j < k { lemma_ind_mono(ind, st, len, j, k); } else if j > k { lemma_ind_mono(ind, st, len, k, j); }
+    }
+}
+// state after the first loop has handled the indices ind[0..m)
+pub open spec fn partly(t0: Seq<Token>, ind: Seq<usize>, st: int, m: int, cur: Seq<Token>) -> bool {
+    &&& cur.len() == t0.len()
+    &&& forall|i: int| 0 <= i < t0.len() ==> #[trigger] cur[i] == (if in_rm(ind.subrange(0, m), i) { Token { span: Span { start: t0[i].span.start, end: t0[i + st - 1].span.end }, kind: t0[i].kind } } else { t0[i] })
+}
+
+
+'''
+
 CONDENSE_INDICES = dict(
-    external_body=True, props=['C02'],
+    props=['C01', 'C02', 'C17'],
     requires=['stretch_len >= 1',
               'forall|k: int| 0 <= k < indices@.len() ==> #[trigger] indices@[k] + stretch_len <= old(self).tokens@.len()',
               'forall|a: int, b: int| 0 <= a < b < indices@.len() ==> #[trigger] indices@[a] + stretch_len <= #[trigger] indices@[b]'],
     ensures=['final(self).source@ == old(self).source@',
              'final(self).tokens@ == keepf(stretched(old(self).tokens@, indices@, stretch_len as int), |i: int| in_stretch(indices@, stretch_len as int, i), old(self).tokens@.len() as int)'],
-    assumed='each listed index absorbs the stretch_len-1 tokens after it (span end extended, absorbed tokens deleted, everything else unchanged); body uses peekable(): outside Verus; checked by rac:condense_indices (bounded)')
+    closures=[dict(params='|v|', typed_params='|v: &usize|', result='k: usize', requires='*v + stretch_len <= usize::MAX', ensures='k == *v + stretch_len')],
+    loops={1: dict(iter_name='it', invariant=['partly(t0, ind, st, it.index@ as int, self.tokens@)', 'ci_pre(ind, st, n)', 'ind == indices@', 'st == stretch_len', 'n == t0.len()',
+                                              'self.source@ == src0']),
+           2: dict(desugar='R17', invariant=['ind == indices@', 'ci_pre(ind, st, n)', 'st == stretch_len', 'n == strd.len()', 'old@ == strd', 'p == pfun(ind, st)',
+                                             'self.source@ == src0',
+                                             'ind.len() == 0 ==> self.tokens@.len() == 0',
+                                             '__p < ind.len() ==> self.tokens@ == keepf(strd, p, ind[__p as int] as int)',
+                                             '0 < __p == ind.len() ==> self.tokens@ == keepf(strd, p, ind[ind.len() - 1] + st)'])},
+    proofs=[dict(at='body_start', kind='ghost', text='let ghost t0 = self.tokens@;'),
+            dict(at='body_start', kind='ghost', text='let ghost src0 = self.source@;'),
+            dict(at='body_start', kind='ghost', text='let ghost ind = indices@;'),
+            dict(at='body_start', kind='ghost', text='let ghost st = stretch_len as int;'),
+            dict(at='body_start', kind='ghost', text='let ghost n = t0.len() as int;'),
+            dict(at='body_start', text='assert(ind.subrange(0, 0) =~= Seq::<usize>::empty()); assert(ci_pre(ind, st, n));'),
+            dict(before='let end_tok', kind='ghost', text='let ghost m = it.index@ as int;'),
+            dict(before='let end_tok', kind='ghost', text='let ghost cur0 = self.tokens@;'),
+            dict(before='let end_tok', text='''
+            lemma_in_rm_unique(ind, st, n, m);
+            assert(!in_rm(ind.subrange(0, m), ind[m] + st - 1)) by {
+                if in_rm(ind.subrange(0, m), ind[m] + st - 1) {
+                    let j = choose|j: int| 0 <= j < m && #[trigger] ind.subrange(0, m)[j] as int == ind[m] + st - 1;
+                    assert(ind.subrange(0, m)[j] == ind[j]);
+                    lemma_ind_mono(ind, st, n, j, m);
+                }
+            }
+            assert(*idx == ind[m]); assert(ind[m] + st <= n); assert(self.tokens@.len() <= usize::MAX) by { broadcast use vstd::std_specs::vec::axiom_spec_len; let _l = self.tokens.len(); }'''),
+            dict(after='start_tok.span.end', text='''
+            assert(ind.subrange(0, m + 1) =~= ind.subrange(0, m).push(ind[m]));
+            assert forall|i: int| 0 <= i < t0.len() implies #[trigger] self.tokens@[i] == (if in_rm(ind.subrange(0, m + 1), i) { Token { span: Span { start: t0[i].span.start, end: t0[i + st - 1].span.end }, kind: t0[i].kind } } else { t0[i] }) by {
+                let s0 = ind.subrange(0, m); let s1 = ind.subrange(0, m + 1);
+                if i == ind[m] {
+                    assert(s1[m] as int == i);
+                    assert(!in_rm(s0, i)) by { if in_rm(s0, i) { let j = choose|j: int| 0 <= j < m && #[trigger] s0[j] as int == i; assert(s0[j] == ind[j]); } }
+                } else {
+                    assert(self.tokens@[i] == cur0[i]);
+                    if in_rm(s0, i) { let j = choose|j: int| 0 <= j < m && #[trigger] s0[j] as int == i; assert(s1[j] as int == i); }
+                    if in_rm(s1, i) { let j = choose|j: int| 0 <= j < m + 1 && #[trigger] s1[j] as int == i; assert(j < m); assert(s0[j] as int == i); }
+                }
+            }'''),
+            dict(before='let old', kind='ghost', text='let ghost strd = stretched(t0, ind, st);'),
+            dict(before='let old', text='''
+        assert(ind.subrange(0, ind.len() as int) =~= ind);
+        assert(self.tokens@ =~= strd) by {
+            assert forall|i: int| 0 <= i < n implies self.tokens@[i] == strd[i] by {
+                if in_rm(ind, i) { let j = choose|j: int| 0 <= j < ind.len() && #[trigger] ind[j] as int == i; assert(ind[j] + st <= n); }
+            }
+        }'''),
+            dict(after='let old', text='assert(old@ =~= strd);'),
+            dict(before='self.tokens.extend_from_slice', nth=1, kind='ghost', text='let ghost p = pfun(ind, st);'),
+            dict(before='self.tokens.extend_from_slice', nth=1, text='''
+        if ind.len() > 0 {
+            assert forall|i: int| 0 <= i < ind[0] implies !(#[trigger] p(i)) by { lemma_not_in_stretch(ind, st, n, -1, i); }
+            lemma_keepf_append(strd, p, 0, ind[0] as int);
+        }
+        assert(keepf(strd, p, 0) =~= Seq::<Token>::empty());'''),
+            dict(after='self.tokens.extend_from_slice', nth=1, text='if ind.len() > 0 { assert(self.tokens@ =~= keepf(strd, p, ind[0] as int)); } else { assert(self.tokens@ =~= Seq::<Token>::empty()); }'),
+            dict(before='self.tokens.push', kind='ghost', text='let ghost k = __p - 1;'),
+            dict(before='self.tokens.push', text='lemma_not_in_stretch(ind, st, n, k, ind[k] as int);'),
+            dict(after='self.tokens.push', text='''
+            assert(!p(ind[k] as int));
+            assert(self.tokens@ =~= keepf(strd, p, ind[k] + 1));
+            assert forall|i: int| ind[k] + 1 <= i < ind[k] + st implies #[trigger] p(i) by { assert(ind[k] < i && i < ind[k] + st); }
+            lemma_keepf_skip(strd, p, ind[k] + 1, ind[k] + st);'''),
+            dict(before='self.tokens.extend_from_slice', nth=2, text='''
+                lemma_ind_mono(ind, st, n, k, k + 1);
+                assert forall|i: int| ind[k] + st <= i < ind[k + 1] implies !(#[trigger] p(i)) by { lemma_not_in_stretch(ind, st, n, k, i); }
+                lemma_keepf_append(strd, p, ind[k] + st, ind[k + 1] as int);'''),
+            dict(before='self.tokens.extend_from_slice', nth=3, text='''
+        if ind.len() > 0 {
+            let l = ind.len() - 1;
+            assert forall|i: int| ind[l] + st <= i < n implies !(#[trigger] p(i)) by { lemma_not_in_stretch(ind, st, n, l, i); }
+            lemma_keepf_append(strd, p, ind[l] + st, n);
+        } else {
+            assert forall|i: int| 0 <= i < n implies !(#[trigger] p(i)) by { lemma_not_in_stretch(ind, st, n, -1, i); }
+            lemma_keepf_append(strd, p, 0, n);
+        }'''),
+            dict(before='self.tokens.extend_from_slice', nth=3, kind='ghost', text='let ghost tk1 = self.tokens@;'),
+            dict(at='body_end', text='''
+        if ind.len() > 0 {
+            let l = ind.len() - 1;
+            assert(tk1 == keepf(strd, p, ind[l] + st));
+            assert(self.tokens@ =~= tk1 + strd.subrange(ind[l] + st, n));
+        } else {
+            assert(tk1.len() == 0);
+            assert(self.tokens@ =~= tk1 + strd.subrange(0, n));
+            assert(keepf(strd, p, 0) =~= Seq::<Token>::empty());
+        }
+        assert(self.tokens@ =~= keepf(strd, p, n));
+        lemma_keepf_ext(strd, p, |i: int| in_stretch(indices@, stretch_len as int, i), n);'''),
+            ])
 
 NUMSUF = dict(
     props=['C01', 'C02', 'C17'],
@@ -777,6 +941,7 @@ def build(repo):
     U.raw(TILES_LEMMAS, name='lemmas:tiles', props=['C02'])
     U.raw(NEWLINES_LEMMAS, name='lemmas:condense-newlines', props=['C02'])
     U.raw(NUMSUF_LEMMAS, name='lemmas:number-suffixes', props=['C02', 'C17'])
+    U.raw(CI_LEMMAS, name='lemmas:condense-indices', props=['C02', 'C17'])
     U.raw(QUOTES_LEMMAS, name='lemmas:match-quotes', props=['C02'])
     U.impl(D, 'impl Document', {
         'newlines_to_breaks': dict(
